@@ -106,6 +106,7 @@ func NewWorld(t *sim.Tape, dir string) *World {
 	}
 	simhook.Simulated.Store(true)
 	simhook.Gen.Add(1)
+	simhook.ResetAll()
 	protocol.SimReset()
 	gwconfig.SimReset()
 	gwauthconfig.SimReset()
